@@ -299,6 +299,16 @@ fn judge(ctx: &mut Ctx, index: u64, fault: Fault, r: &SessionResult, ends: &[usi
     let detail = |x: serde_json::Value| json!({"fault": format!("{fault:?}"), "position": pos_class, "calls": format!("{:?}", r.calls), "calls_pending": r.calls_pending,
         "unfiltered": r.unfiltered, "unfiltered_end": r.unfiltered_end, "filtered": r.filtered, "filtered_end": r.filtered_end,
         "sends": format!("{:?}", r.sends), "sends_pending": r.sends_pending, "late_call": format!("{:?}", r.late_call), "late_stream": format!("{:?}", r.late_stream), "trace": r.trace, "info": x});
+    if index % 397 == 3 {
+        // an explored fault case written out for the evidence file
+        let mut d = detail(json!({}));
+        if let serde_json::Value::Object(m) = &mut d {
+            let t: String = r.trace.chars().take(160).collect();
+            m.insert("trace".into(), json!(t));
+            m.insert("kind".into(), json!(kind));
+        }
+        ctx.sample(d);
+    }
     if !r.quiescent {
         ctx.finding(index, "step-bound-hit", kind, &pos_class, detail(json!({})));
         return;
